@@ -1,13 +1,13 @@
 (* C08 — every extension's encoder and decoder agree.
    Property theorems only; each closed by a lemma of Proofs/ExtP.v. The model
    (Model/Ext.v) describes the code WITH fixes/C08-ech-grease-short-payload,
-   fixes/C08-utls-psk-read-without-session and fixes/C08-one-byte-prefix-overflow applied; the inputs on which the
+   fixes/C08-utls-psk-read-without-session, fixes/C08-one-byte-prefix-overflow and
+   fixes/C08-psk-len-after-edit applied; the inputs on which the
    unfixed code violated the property are kept below as Examples and as corpus
    cases of the runner.
 
      ext_len e / ext_read e n / ext_write id body : Len(), Read(b) with len(b) = n, ExtensionFromID(id)+Write(body)
-     state_ok e : the unexported length cache of UtlsPreSharedKeyExtension is unset or current, and
-                  FakePreSharedKeyExtension binders have a TLS 1.3 hash size (otherwise Read refuses them)
+     state_ok e : FakePreSharedKeyExtension binders have a TLS 1.3 hash size (otherwise Read refuses them)
      wf_ext e   : state_ok and every field within its wire limit (Model/ExtSpec.v)
      rt_ok e    : wf_ext, present on the wire, the type has Write, vectors not below the RFC minimum sizes *)
 From UV Require Import Base.Common Model.Wire Model.Varint Model.Ext Model.ExtSpec Model.ExtObj Proofs.WireP Proofs.ExtP.
@@ -17,22 +17,16 @@ Theorem C08_len_read : forall e n b, state_ok e = true -> ext_read e n = Ok b ->
 Proof. exact len_read. Qed.
 Print Assumptions C08_len_read.
 
-(* The premise state_ok cannot be dropped: the code keeps the first Len() of a
-   UtlsPreSharedKeyExtension in the unexported cachedLength, and editing Identities/Binders
-   afterwards makes Len() and Read() disagree on the UNCHANGED tree (runner: key
-   UtlsPreSharedKeyExtension/after-edit/*, fixes/C08.findings.txt). Full statement, refutation
-   by that witness, and C08_len_read above as the strongest true conditional. *)
-Definition C08_len_read_any_state_full : Prop :=
-  forall e n b, ext_read e n = Ok b -> blen b = ext_len e.
-Definition C08_stale_psk : ext := EUtlsPreSharedKey true (Some 131) true [([126], 5)] [zbytes 64].
-Theorem C08_len_read_any_state_refuted : ~ C08_len_read_any_state_full.
-Proof.
-  intros H.
-  assert (E : ext_read C08_stale_psk 130 = Ok (match ext_read C08_stale_psk 130 with Ok b => b | _ => [] end))
-    by (vm_compute; reflexivity).
-  apply H in E. vm_compute in E. discriminate E.
-Qed.
-Print Assumptions C08_len_read_any_state_refuted.
+(* ... with no premise at all, since fixes/C08-psk-len-after-edit: UtlsPreSharedKeyExtension.Len() no
+   longer trusts a cached length (before the fix this statement was refuted by a value measured
+   once at 131 bytes and then edited: Len() 131, Read wrote 69 bytes; the witness stays below). *)
+Theorem C08_len_read_any_state : forall e n b, ext_read e n = Ok b -> blen b = ext_len e.
+Proof. exact len_read_any. Qed.
+Print Assumptions C08_len_read_any_state.
+Example C08_ex_formerly_stale_psk :
+  let e := EUtlsPreSharedKey true (Some 131) true [([126], 5)] [zbytes 64] in
+  ext_len e = 80 /\ ext_read e 79 = Err E_SHORT /\ is_ok (ext_read e 80) = true.
+Proof. repeat split; vm_compute; reflexivity. Qed.
 
 (* Objects edited after they were encoded once (Model/ExtObj.v: what the object serves is
    obj_view first cur — QUIC transport parameters keep their first non-empty encoding):
@@ -152,8 +146,8 @@ Example C08_ex_rt_fakepsk : rt_ok (EFakePreSharedKey true [([1; 2; 3], 429496729
 Proof. vm_compute. reflexivity. Qed.
 Example C08_ex_rt_ech : rt_ok (EGREASEECH 1 3 77 (zbytes 32) (zbytes 16)) = true.
 Proof. vm_compute. reflexivity. Qed.
-Example C08_ex_wf_utlspsk : wf_ext (EUtlsPreSharedKey true (Some 48) false [([9], 1)] [zbytes 32]) = true
-  /\ ext_len (EUtlsPreSharedKey true (Some 48) false [([9], 1)] [zbytes 32]) = 48.
+Example C08_ex_wf_utlspsk : wf_ext (EUtlsPreSharedKey true None false [([9], 1)] [zbytes 32]) = true
+  /\ ext_len (EUtlsPreSharedKey true None false [([9], 1)] [zbytes 32]) = 48.
 Proof. split; vm_compute; reflexivity. Qed.
 Example C08_ex_limits : wf_ext (ESupportedVersions (repeat 772 127)) = true
   /\ 255 < 2 * blen (repeat 772 128).
